@@ -31,6 +31,10 @@ pub struct Swarm {
     pub w_withdraw_boundary: u32,
     pub w_deposit_boundary: u32,
     pub w_hunter: u32,
+    pub w_flashloan: u32,
+    pub w_receivership: u32,
+    pub w_deleverage: u32,
+    pub w_make_unhealthy: u32,
     pub fault_oracle_skip: u32, // per-mille: publisher skips a bank
     pub fault_cpi_fail: u32,    // per-mille: inject CPI failure in a tx
     pub fault_delay: u32,       // per-mille: deliver later
@@ -40,6 +44,16 @@ pub struct Swarm {
 }
 
 impl Swarm {
+    pub fn tx(rng: &mut Rng, faults: bool) -> Self {
+        let mut s = Self::mkt(rng, faults);
+        s.w_flashloan = rng.range(5, 25) as u32;
+        s.w_receivership = rng.range(5, 25) as u32;
+        s.w_deleverage = rng.range(2, 15) as u32;
+        s.w_crash = rng.range(3, 10) as u32;
+        s.w_borrow_boundary = rng.range(6, 16) as u32;
+        s.w_make_unhealthy = rng.range(4, 12) as u32;
+        s
+    }
     pub fn mkt(rng: &mut Rng, faults: bool) -> Self {
         let mut r = |lo: u64, hi: u64| rng.range(lo, hi) as u32;
         Swarm {
@@ -60,6 +74,10 @@ impl Swarm {
             w_withdraw_boundary: r(1, 8),
             w_deposit_boundary: r(0, 6),
             w_hunter: r(2, 15),
+            w_flashloan: 0,
+            w_receivership: 0,
+            w_deleverage: 0,
+            w_make_unhealthy: r(0, 3),
             fault_oracle_skip: if faults { r(0, 150) } else { 0 },
             fault_cpi_fail: if faults { r(0, 40) } else { 0 },
             fault_delay: if faults { r(0, 100) } else { 0 },
@@ -902,6 +920,10 @@ pub fn step_mkt(sim: &mut Sim, ctx: &mut Ctx) {
         s.w_withdraw_boundary,
         s.w_deposit_boundary,
         s.w_hunter,
+        s.w_flashloan,
+        s.w_receivership,
+        s.w_deleverage,
+        s.w_make_unhealthy,
     ];
     let choice = ctx.rng.pick_weighted(&weights);
     let tx: Option<Tx> = match choice {
@@ -959,7 +981,14 @@ pub fn step_mkt(sim: &mut Sim, ctx: &mut Ctx) {
         13 => act_borrow_boundary(sim, ctx),
         14 => act_withdraw_boundary(sim, ctx),
         15 => act_deposit_boundary(sim, ctx),
-        _ => act_hunter(sim, ctx),
+        16 => act_hunter(sim, ctx),
+        17 => crate::actors_tx::act_flashloan(sim, ctx),
+        18 => crate::actors_tx::act_bracket(sim, ctx, crate::actors_tx::BracketKind::Liquidation),
+        19 => crate::actors_tx::act_bracket(sim, ctx, crate::actors_tx::BracketKind::Deleverage),
+        _ => {
+            crate::actors_tx::act_make_unhealthy(sim, ctx);
+            None
+        }
     };
     if sim.violated() && sim.stop_on_violation {
         return;
